@@ -103,7 +103,7 @@ func genHandler(r *core.Rand, mi *methodInfo, nresp int, limit int, codec string
 	// final status
 	if r.Chance(1, 3) {
 		h.Code = 1 + r.Intn(16)
-		h.Msg = []string{"boom", "no such thing", "a b c", "x"}[r.Intn(4)]
+		h.Msg = r.PickS("boom", "no such thing", "a b c", "x", "100%25 done", "a%2Fb", "caf\u00e9 %41", "%")
 	}
 	for i := 0; i < nresp; i++ {
 		size := r.Pick(0, 1, 5, 8, 20, 63, 64, 65, 200, 1000)
@@ -289,6 +289,9 @@ func genC06(r *core.Rand, run int) *MuxScenario {
 		sp.Fault.Kind = "abort"
 	case f < 7:
 		sp.Fault.Kind = "wbreak"
+	}
+	if tr.proto == "http" && r.Chance(1, 2) {
+		sp.Fault.Err = "ueof" // HTTP/1.1: a broken body reads as io.ErrUnexpectedEOF
 	}
 	if sp.Fault.Kind == "wbreak" {
 		sp.PingPong = false // a client that waits for answers which can no longer arrive would wait forever
